@@ -257,13 +257,3 @@ func TestLifeRandom(t *testing.T) {
 		}
 	}
 }
-
-func TestLifeDebugCreate(t *testing.T) {
-	for n := 1; n <= 4; n++ {
-		lc := newLifeChain(t, 7)
-		a2 := lc.gen.Accts[2]
-		it := lc.life.CreateLife(a2, n, txgen.LK(1))
-		rs := lc.block(it)
-		t.Logf("n=%d status=%d gas=%d err=%s", n, rs[0].Status, rs[0].GasUsed, rs[0].VMErr)
-	}
-}
